@@ -128,3 +128,9 @@ Proof.
   - rewrite EG. exact G.
 Qed.
 Print Assumptions C10_mlkr_source.
+
+(* non-vacuity of C10_mlkr_source: three points in the plane, a rank-one 1 x 2 transformation, real targets *)
+Example C10_mlkr_source_nonvacuous :
+  wfmR 1 2 [[1; 2]] /\ wfmR 1 2 [[0; 1]] /\ List.Forall (wfvR 2) [[0; 0]; [1; 0]; [0; 3]] /\ (2 <= length [[0; 0]; [1; 0]; [0; 3]])%nat /\
+  length [1; -2; / 2] = length [[0; 0]; [1; 0]; [0; 3]].
+Proof. repeat split; repeat constructor. Qed.
